@@ -99,6 +99,16 @@ class SliceFlow:
                     if c is not None:
                         anyg = True
                         out |= c
+                elif d.kind == "stmt" and isinstance(st, ast.Assign) and len(st.targets) == 1 and isinstance(st.targets[0], (ast.Tuple, ast.List)):
+                    # first, *middle, last = group: the starred name holds the group without its two outer tokens
+                    elts = st.targets[0].elts
+                    stars = [i for i, x in enumerate(elts) if isinstance(x, ast.Starred)]
+                    if len(stars) == 1 and isinstance(elts[stars[0]].value, ast.Name) and elts[stars[0]].value.id == e.id:
+                        c = self.counts(fname, d, st.value, depth + 1, seen | {(did, e.id)})
+                        if c is not None:
+                            anyg = True
+                            lead, trail = stars[0], len(elts) - stars[0] - 1
+                            out |= frozenset(x + 1 for x in c) if (lead, trail) == (1, 1) else frozenset({99})
             return frozenset(out) if anyg else None
         return None
 
@@ -545,8 +555,14 @@ def _followers(pm: ParserModel, fname: str, cfg: CFG, n: Optional[Node], depth: 
             if cn is not None and cn.kind == "test" and cn.cond is not None and "?" not in rets:
                 truth = {bool(r) for r in rets}
                 last = cn.cond.values[-1] if isinstance(cn.cond, ast.BoolOp) and isinstance(cn.cond.op, ast.And) else cn.cond
+                flip = False
+                while isinstance(last, ast.UnaryOp) and isinstance(last.op, ast.Not):
+                    last = last.operand
+                    flip = not flip
                 if last is call and len(truth) == 1:
-                    edges = {"T"} if True in truth else {"F"}
+                    t_ = (True in truth) != flip
+                    # in `a and <call>` the false edge is also taken when `a` is false; the call's value decides only the true edge
+                    edges = {"T"} if t_ else ({"F"} if last is cn.cond or (isinstance(cn.cond, ast.UnaryOp) and not isinstance(cn.cond, ast.BoolOp)) else {"F"})
             sub = _followers(pm, caller, ccfg, cn, depth + 1, None, edges)
             if sub is None:
                 return None
